@@ -46,7 +46,8 @@ namespace {
 using Json = sim::Json;
 
 const int kCpuLimitSeconds = 20;
-extern "C" void on_cpu_limit(int) { const char m[] = "TERMINATE: CPU time bound exceeded (possible hang)\n"; ssize_t r = ::write(2, m, sizeof m - 1); (void)r; _exit(76); }
+extern "C" void __sanitizer_print_stack_trace(void);
+extern "C" void on_cpu_limit(int) { const char m[] = "TERMINATE: CPU time bound exceeded (possible hang)\n"; ssize_t r = ::write(2, m, sizeof m - 1); (void)r; __sanitizer_print_stack_trace(); _exit(76); }
 void arm_cpu_limit(int seconds) { struct itimerval it; std::memset(&it, 0, sizeof it); it.it_value.tv_sec = seconds; setitimer(ITIMER_VIRTUAL, &it, nullptr); }
 
 // ---- storage-fault operators on a byte image
@@ -86,6 +87,32 @@ std::string apply_op(const std::string& in, const Json& op, const std::string& d
             const std::string rp = repl[static_cast<size_t>(op.geti("arg")) % 20];
             if (k == "token_drop") b.erase(t.first, t.second); else if (k == "token_replace") b.replace(t.first, t.second, rp); else b.insert(t.first, rp + " ");
         }
+    } else if (k == "num_replace" || k == "rec_drop" || k == "name_replace") {
+        // structure-aware: the deck stays syntactically well formed, one value / record / name becomes implausible
+        std::vector<std::string> lines; { std::istringstream is(b); std::string l; while (std::getline(is, l)) lines.push_back(l); }
+        const size_t sched = [&] { for (size_t q = 0; q < lines.size(); ++q) if (lines[q].rfind("SCHEDULE", 0) == 0) return q; return size_t(0); }();
+        const size_t lo = (op.geti("arg") & 1) ? sched : 0;          // half of them aimed at the SCHEDULE section
+        if (lines.size() > lo + 1) {
+            const size_t o = lo + static_cast<size_t>(f * static_cast<double>(lines.size() - lo - 1));
+            auto is_num = [](const std::string& t) { if (t.empty()) return false; char* e = nullptr; std::strtod(t.c_str(), &e); return e && *e == 0; };
+            // search forward (wrapping) for a line the operator applies to
+            for (size_t d = 0; d < lines.size() - lo; ++d) {
+                std::string& l = lines[lo + (o - lo + d) % (lines.size() - lo)];
+                if (l.rfind("--", 0) == 0) continue;
+                std::vector<std::pair<size_t, size_t>> toks; size_t p = 0;
+                while (p < l.size()) { while (p < l.size() && std::isspace(static_cast<unsigned char>(l[p]))) ++p; size_t q = p; while (q < l.size() && !std::isspace(static_cast<unsigned char>(l[q]))) ++q; if (q > p) toks.push_back({p, q - p}); p = q; }
+                if (k == "rec_drop") { if (toks.size() >= 2 && l.substr(toks.back().first, toks.back().second) == "/") { l.clear(); break; } continue; }
+                std::vector<size_t> cand;
+                for (size_t t = 0; t < toks.size(); ++t) { const std::string tk = l.substr(toks[t].first, toks[t].second); if (k == "num_replace" ? is_num(tk) : (tk.size() >= 3 && tk.front() == '\'' && tk.back() == '\'')) cand.push_back(t); }
+                if (cand.empty()) continue;
+                const auto t = toks[cand[static_cast<size_t>(op.geti("arg") / 2) % cand.size()]];
+                static const char* nums[] = {"0", "-1", "1", "2", "1000000", "1e20", "-5", "0.0", "1*", "99", "1e-30", "3"};
+                static const char* names[] = {"'*'", "'NOSUCH'", "''", "'FIELD'", "'?'", "'P*'", "'OPEN'", "'G1'", "'W1'", "'12345678'"};
+                l.replace(t.first, t.second, k == "num_replace" ? nums[static_cast<size_t>(op.geti("arg") / 7) % 12] : names[static_cast<size_t>(op.geti("arg") / 7) % 10]);
+                break;
+            }
+        }
+        b.clear(); for (auto& l : lines) { b += l; b += '\n'; }
     } else if (k == "splice_text" && !donor.empty() && n) { size_t o = at(0); size_t d = static_cast<size_t>(op.geti("arg")) % donor.size(); b.insert(o, donor.substr(d, std::min<size_t>(400, donor.size() - d))); }
     return b;
 }
@@ -199,7 +226,7 @@ struct C20 : Scenario {
     std::vector<std::string> shipped;
     C20() { fs::passthrough(true); for (auto& n : fs::listdir("/repo/tests")) if (n.size() > 5 && n.substr(n.size() - 5) == ".DATA") { std::string t = fs::slurp("/repo/tests/" + n); if (t.size() > 200 && t.size() < 200000 && t.find("INCLUDE") == std::string::npos && t.find("IMPORT") == std::string::npos) shipped.push_back(n); } fs::passthrough(false); }
     Json describe() override { Json j = Json::object(); j["scenario"] = "S-CORRUPT"; j["real_vs_stub"] = describe_real_vs_stub();
-        j["consumers"] = "Parser::parseString -> EclipseState -> Schedule -> SummaryConfig; EclFile (+every array, preload), ERst (+every step/array), ESmry (whole file, vector list, base run, make_esmry_file) / ExtESmry, EGrid + EclipseGrid(file), EInit, ERft, restart load through RstState/Schedule/EclipseIO::loadRestart";
+        j["consumers"] = "Parser::parseString -> EclipseState -> Schedule -> SummaryConfig; EclFile (+every array, preload), ERst (+every step/array), ESmry (whole file, vector list, base run, make_esmry_file) / ExtESmry, EGrid + EclipseGrid(file), EInit, ERft";
         j["alloc_cap_bytes"] = static_cast<long long>(kAllocCap); j["cpu_bound_seconds"] = kCpuLimitSeconds; j["shipped_decks"] = static_cast<long long>(shipped.size()); return j; }
 
     Json generate(Rng& rng, const std::string&, std::uint64_t run) override {
@@ -213,8 +240,9 @@ struct C20 : Scenario {
         Json ops = Json::array(); int no = static_cast<int>(rng.range(1, 4));
         const bool text = kind == "deck" || kind == "shipped";
         static const char* bops[] = {"truncate", "bitflip", "zero_sector", "dup_sector", "drop_sector", "splice_sector", "set_word", "set_count", "set_count", "truncate"};
-        static const char* tops[] = {"token_drop", "token_replace", "token_insert", "line_drop", "line_dup", "line_swap", "splice_text", "bitflip", "truncate", "token_replace"};
-        for (int k = 0; k < no; ++k) { Json o = Json::object(); o["kind"] = text ? tops[rng.below(10)] : bops[rng.below(10)]; o["pos"] = rng.unit(); o["arg"] = static_cast<long long>(rng.below(100000)); ops.push(o); }
+        static const char* tops[] = {"token_drop", "token_replace", "token_insert", "line_drop", "line_dup", "line_swap", "splice_text", "bitflip", "truncate", "token_replace",
+                                     "num_replace", "num_replace", "num_replace", "rec_drop", "rec_drop", "name_replace", "name_replace", "num_replace"};
+        for (int k = 0; k < no; ++k) { Json o = Json::object(); o["kind"] = text ? tops[rng.below(18)] : bops[rng.below(10)]; o["pos"] = rng.unit(); o["arg"] = static_cast<long long>(rng.below(100000)); ops.push(o); }
         p["ops"] = ops;
         return p;
     }
@@ -268,12 +296,8 @@ struct C20 : Scenario {
                 else if (victim_class == "INIT") consume_init(r, victim, oh);
                 else if (victim_class == "RFT") consume_rft(r, victim, oh);
                 else consume_eclfile(r, victim, oh);
-                // a restarted run built on the damaged restart file
-                if (kind == "run" && (victim_class == "UNRST" || victim_class == "X") && r.violations.empty()) guarded(r, "restart_load", [&] {
-                    Model m = generate_model(static_cast<std::uint64_t>(plan.geti("model_seed")), GenOpts::from_json(plan.at("gen")));
-                    DeckOpts d; d.restart_step = 1; d.restart_base = "CASE"; RunCfg cfg; cfg.base = "CASEB"; cfg.physics_seed = 5;
-                    auto w = World::create(deck_text(m, d), cfg, 1); oh.u64(w->sched->size()); ++r.counters["outcome.restart_loaded_from_damaged_file"];
-                });
+                // (restart LOADING from a damaged file - RstState::load / Schedule(..., rst) - is not among the operations the
+                //  statement lists and is not exercised here; see DESIGN 11.7)
             }
         } catch (const std::exception& e) { ++r.counters["outcome.corpus_producer_threw"]; }
         arm_cpu_limit(0);
